@@ -1,0 +1,33 @@
+//! Verification hooks (compiled only with `--cfg opw_verif`).
+//!
+//! A global, mutex protected event sink. Events are recorded only while a
+//! harness has switched recording on; each event receives a sequence number
+//! under the same lock, so the recorded order is the order of the emit calls.
+
+use std::sync::Mutex;
+
+static SINK: Mutex<Option<Vec<(u64, String, String)>>> = Mutex::new(None);
+
+/// Start recording (clears anything recorded before).
+pub fn start() {
+    *SINK.lock().unwrap_or_else(|e| e.into_inner()) = Some(Vec::new());
+}
+
+/// Stop recording and return the events as (sequence number, kind, payload).
+pub fn drain() -> Vec<(u64, String, String)> {
+    SINK.lock().unwrap_or_else(|e| e.into_inner()).take().unwrap_or_default()
+}
+
+/// True when some harness is recording.
+pub fn enabled() -> bool {
+    SINK.lock().unwrap_or_else(|e| e.into_inner()).is_some()
+}
+
+/// Record one event. The payload closure is only evaluated while recording.
+pub fn emit<F: FnOnce() -> String>(kind: &str, payload: F) {
+    let mut guard = SINK.lock().unwrap_or_else(|e| e.into_inner());
+    if let Some(events) = guard.as_mut() {
+        let seq = events.len() as u64;
+        events.push((seq, kind.to_string(), payload()));
+    }
+}
